@@ -232,13 +232,22 @@ End Encoder.
 (** ---------- the classes of valid glyphs known not to survive encode-then-parse ---------- *)
 Definition olib_plain (l : option dict) : bool :=
   match l with Some d => pv_plain (PDict d) | None => true end.
-Definition libs_plain (g : glyph) : bool :=
-  pv_plain (PDict (glib g)) &&
-  forallb (fun a => olib_plain (alib a)) (ganchors g) &&
-  forallb (fun x => olib_plain (gulib x)) (gguides g) &&
-  forallb (fun c => olib_plain (clib c) && forallb (fun p => olib_plain (plib p)) (cpoints c))
+(** a condition on every object lib (contours without points are not written) *)
+Definition libs_all (P : option dict -> bool) (g : glyph) : bool :=
+  forallb (fun a => P (alib a)) (ganchors g) &&
+  forallb (fun x => P (gulib x)) (gguides g) &&
+  forallb (fun c => P (clib c) && forallb (fun p => P (plib p)) (cpoints c))
           (filter has_points (gcontours g)) &&
-  forallb (fun c => olib_plain (colib c)) (gcomps g).
+  forallb (fun c => P (colib c)) (gcomps g).
+Definition libs_plain (g : glyph) : bool := pv_plain (PDict (glib g)) && libs_all olib_plain g.
+(** lib values the property-list writer and reader agree on, whatever the options: no duplicate
+    keys, integers in range, finite reals, bytes, well-shaped dates; the glyph lib has no
+    [public.objectLibs] entry of its own *)
+Definition pv_valid (v : pv) : bool := pv_good 0 v.
+Definition olib_valid (l : option dict) : bool :=
+  match l with Some d => pv_valid (PDict d) | None => true end.
+Definition libs_valid (g : glyph) : bool :=
+  negb (has_key objlibs_key (glib g)) && pv_valid (PDict (glib g)) && libs_all olib_valid g.
 Definition note_survives (n : option str) : bool :=
   match n with
   | None => true
